@@ -177,6 +177,7 @@ def run(ctx):
         if why:
             ctx.ob("native/%s" % name, False, why)
             ctx.violation("builder-method/%s/%s" % (name, classify(why)), "Builder::%s: %s" % (name, why), {"cmd": "builder_call %s %d" % (name, state), "real": real})
+    native_module_roundtrip(ctx, rp, loaded_only=False)
     ctx.validated = native
     rp.close()
     version_word(ctx, q, mf, registry)
@@ -185,6 +186,32 @@ def run(ctx):
     ctx.extra["native_calls"] = native
     ctx.extra["cvc5"] = q.summary()
     ctx.extra["explanation"] = "Each Builder method's MIR is executed with symbolic arguments; the emitted instruction is compared with the grammar entry of the method's opcode."
+
+
+def native_module_roundtrip(ctx, rp, loaded_only):
+    """Every Builder method's instruction in a real module: assemble -> load -> assemble must give identical words.
+    loaded_only (C01, whose premise is 'the loader accepts the binary'): a module the loader rejects is outside the claim;
+    otherwise (C06: 'every module built with the Builder survives') a rejection is a violation too."""
+    sigs = tables.builder_signatures()
+    done = 0
+    seen = set()
+    for s in sigs:
+        if not s["pub"] or s["name"] in seen or s["name"] in NOT_EMITTING:
+            continue
+        if s["name"] in ("end_function", "constant_bit64", "spec_constant_bit64"):
+            continue      # the generic harness call would not be a conforming history / input (open block; 64-bit type not declared)
+        seen.add(s["name"])
+        real = rp.ask("builder_roundtrip %s" % s["name"])
+        if "error" in real:
+            continue
+        done += 1
+        if loaded_only and real.get("load_error"):
+            continue
+        if real.get("same") is False:
+            ctx.ob("native-roundtrip/%s" % s["name"], False, str(real)[:300])
+            ctx.violation("roundtrip/builder/%s" % s["name"], "a module holding the instruction of Builder::%s does not survive assemble -> load -> assemble: %s" % (
+                s["name"], str(real)[:300]), {"cmd": "builder_roundtrip %s" % s["name"], "real": real})
+    ctx.ob("native-roundtrip/%d-builder-methods" % done, True if done else None)
 
 
 def classify(why):
